@@ -22,7 +22,7 @@ def run_config(a, kind, method, dtype, extra_opts=None, build_opts=None):
     """One observed sum_products call -> run record for the judge."""
     import torch, fggs
     tag = [kind, method, str(dtype).replace('torch.', '')] + ([json.dumps(extra_opts, sort_keys=True)] if extra_opts else [])
-    run = {'sr': CARRIER[kind], 'tag': tag, 'out': 'ok', 'res': {}}
+    run = {'sr': CARRIER[kind], 'tag': tag, 'out': 'ok', 'res': {}, 'partial': False}
     try:
         g, info = AG.build_fgg(a, kind, dtype, **(build_opts or {}))
         with warnings.catch_warnings(record=True) as wl:
